@@ -62,6 +62,13 @@ TailFrom(S, N, K, n, k) ==
   ELSE IF k <= Lo(N, K, n) THEN S[Len(S)]
   ELSE S[Hi(K, n) - k + 1]
 
+(* Closed forms of the two extreme tails, cheap enough for populations of several thousand    *)
+(* (where the ln-space computation of the crate meets floating point underflow):               *)
+(*   P[X >= Hi]     = C(K,Hi) C(N-K,n-Hi) / C(N,n)                     (a single term)        *)
+(*   P[X >= Lo + 1] = (C(N,n) - C(K,Lo) C(N-K,n-Lo)) / C(N,n)          (all but the first)    *)
+TailTop(N, K, n) == Mul(Binom(K, Hi(K, n)), Binom(N - K, n - Hi(K, n)))
+TailAboveLo(N, K, n) == Sub(Binom(N, n), Mul(Binom(K, Lo(N, K, n)), Binom(N - K, n - Lo(N, K, n))))
+
 (* Self checks TLC evaluates on every tuple it is asked about:             *)
 (* Vandermonde: the full sum is C(N,n); and the tail is antitone in k.      *)
 Vandermonde(N, K, n) == TailNum(N, K, n, 0) = TailDen(N, n)
